@@ -209,3 +209,85 @@ Theorem C10_udf_directory_refused_edit_changes_nothing : forall ops o,
   udfdir_accepts (fst (udfdir_run ops)) o = false -> udfdir_run (ops ++ [o]) = udfdir_run ops.
 Proof. exact UdfDirProofs.udfdir_refused_unchanged. Qed.
 End UdfDirStatements.
+
+(* ---- the whole UDF tree: Model/UdfLayout.v ---------------------------------------------------------------------
+   Where _udf_assign_extents / _reshuffle_extents put every File Entry, identifier area and file content of a whole UDF
+   tree, and what every pointer says, for EVERY well-formed tree (names distinct per directory, shared inodes of equal
+   length, ...) and -- for the counters -- after EVERY edit history. *)
+From PV.Model Require UdfLayout.
+From PV.Proofs Require UdfLayoutBfsProofs UdfLayoutViewProofs UdfLayoutFactsProofs UdfLayoutWalkProofs UdfLayoutSpaceProofs UdfLayoutProofs
+  UdfLayoutHistoryProofs.
+Section UdfLayoutStatements.
+Import PV.Model.UdfLayout.
+Import PV.Proofs.UdfLayoutBfsProofs PV.Proofs.UdfLayoutViewProofs PV.Proofs.UdfLayoutFactsProofs PV.Proofs.UdfLayoutWalkProofs
+  PV.Proofs.UdfLayoutSpaceProofs PV.Proofs.UdfLayoutProofs.
+
+Theorem C10_udf_reader_recovers_the_namespace s t fuel : wf_utree t = true -> (ul_depth t <= fuel)%nat ->
+  udf_walk fuel (view (udf_layout s t)) = Some (namespace t).
+Proof. first [exact (@udf_walk_layout) | apply (@udf_walk_layout)]. Qed.
+
+Theorem C10_udf_layout_disjoint ps iso t : wf_utree t = true -> wf_iso iso t = true ->
+  let lo := udf_layout_iso ps iso t in
+  ul_tiled (ps + 2) (ul_regions lo) (ps + lo_part_length lo) /\
+  lo_end lo = ps + lo_part_length lo /\
+  NoDup (map (fun x => fst (fst x)) (lo_fes lo)) /\ NoDup (map (fun x => fst (fst x)) (lo_data lo)).
+Proof. first [exact (@udf_layout_disjoint) | apply (@udf_layout_disjoint)]. Qed.
+
+Theorem C10_udf_descriptors_cover_the_data_partial ps iso t i fe l : wf_utree t = true -> wf_iso iso t = true ->
+  let lo := udf_layout_iso ps iso t in
+  In (i, fe, l) (lo_fes lo) -> 0 < l ->
+  exists d, ul_find i (lo_data lo) = Some d /\ In (i, d, l) (lo_data lo) /\
+            ul_ads_end (d - ps) (ul_ads (ul_data_pos lo i) l) = Some (d - ps + ceiling_div l 2048).
+Proof. first [exact (@udf_layout_ads_partial) | apply (@udf_layout_ads_partial)]. Qed.
+
+Theorem C10_udf_layout_disjoint_refuted :
+  exists t, let lo := udf_layout udf_part_start t in
+    exists i fe l j d l' p a,
+      In (i, fe, l) (lo_fes lo) /\ In (j, d, l') (lo_data lo) /\ i <> j /\
+      In (p, a) (ul_ads (ul_data_pos lo i) l) /\ p <= d - lo_ps lo < p + ceiling_div a 2048 /\
+      lo_end lo < lo_ps lo + lo_part_length lo.
+Proof. first [exact (@udf_layout_disjoint_refuted) | apply (@udf_layout_disjoint_refuted)]. Qed.
+
+Theorem C10_udf_parent_fid_all_directories ps iso t : wf_utree t = true ->
+  let lo := udf_layout_iso ps iso t in
+  (exists r0, nth_error (lo_dirs lo) 0 = Some r0 /\ dr_path r0 = [] /\ dr_fe r0 = ps + 2 /\ dr_parent_fe r0 = dr_fe r0) /\
+  (forall r, In r (lo_dirs lo) -> exists fids,
+     vlookup (dr_fe r + 1 - ps) (snd (view lo)) =
+     Some (SArea ((dr_fe r + 1 - ps, [], true, true, dr_parent_fe r - ps) :: fids))) /\
+  (forall r j n cs', In r (lo_dirs lo) -> nth_error (ul_dir_children (dr_node r)) j = Some (n, cs') ->
+     exists r', nth_error (lo_dirs lo) (dr_kid0 r + j) = Some r' /\
+                dr_path r' = dr_path r ++ [n] /\ dr_parent_fe r' = dr_fe r /\ dr_node r' = cs') /\
+  length (lo_dirs lo) = ul_count_dirs t.
+Proof. first [exact (@udf_parent_fid) | apply (@udf_parent_fid)]. Qed.
+
+Theorem C10_udf_counts ps iso t : wf_utree t = true ->
+  let lo := udf_layout_iso ps iso t in
+  lo_num_files lo = Z.of_nat (ul_count_files t) /\            (* file NAMES: a hard link counts again *)
+  lo_num_dirs lo = Z.of_nat (ul_count_dirs t) /\              (* directories, the root included *)
+  zlen (lo_fes lo) <= lo_num_files lo /\                       (* File Entries of files: one per inode *)
+  lo_unique_id lo = lo_udf_end lo /\
+  (forall r, In r (lo_dirs lo) -> ps + 2 <= dr_fe r < lo_unique_id lo) /\          (* FE.unique_id = FE extent *)
+  (forall i fe l, In (i, fe, l) (lo_fes lo) -> ps + 2 <= fe < lo_unique_id lo).
+Proof. first [exact (@udf_counts) | apply (@udf_counts)]. Qed.
+
+Example C10_udf_layout_nonvacuous : wf_utree ul_ex_tree = true.
+Proof. exact ul_ex_wf. Qed.
+
+Example C10_udf_layout_nonvacuous_shape :
+  ul_depth ul_ex_tree = 3%nat /\
+  map (fun r => ul_dir_blocks (dr_node r)) (lo_dirs (udf_layout 257 ul_ex_tree)) = [1; 1; 2; 1] /\
+  map (fun r => (dr_fe r, dr_parent_fe r)) (lo_dirs (udf_layout 257 ul_ex_tree)) = [(259, 259); (261, 259); (263, 259); (266, 261)] /\
+  lo_fes (udf_layout 257 ul_ex_tree) = [(0%nat, 268, 5000); (48%nat, 269, 1); (49%nat, 270, 1); (50%nat, 271, 1); (51%nat, 272, 1);
+                                        (52%nat, 273, 1); (53%nat, 274, 1); (54%nat, 275, 1); (55%nat, 276, 1); (1%nat, 277, 0)] /\
+  ul_globals (udf_layout 257 ul_ex_tree) = [257; 37; 37; 11; 4; 278; 295; 294].
+Proof. exact ul_ex_shape. Qed.
+
+Example C10_udf_layout_nonvacuous_walk : udf_walk 3 (view (udf_layout 257 ul_ex_tree)) = Some (namespace ul_ex_tree).
+Proof. first [exact (@ul_ex_walk) | apply (@ul_ex_walk)]. Qed.
+
+Import PV.Proofs.UdfLayoutHistoryProofs.
+Theorem C10_udf_counts_after_every_history ops :
+  let '(cs, _, nf, nd) := ul_run_state ops in
+  nf = Z.of_nat (ul_count_files (ul_run ops)) /\ nd = Z.of_nat (ul_count_dirs (ul_run ops)).
+Proof. exact (udf_counts_history ops). Qed.
+End UdfLayoutStatements.
